@@ -692,15 +692,15 @@ def gen_cases(rng, tier):
         cases += single_sensor_cases(values=("45000", "0", "-5000"), names=("P", "A", "U", "R"), full=True)
         cases += single_fan_cases()
         cases += battery_subset_cases()
-    cases += [gen_temps(rng) for _ in range(220 * n)]
+    cases += [gen_temps(rng) for _ in range(160 * n)]
     cases += [gen_temps_raw(rng) for _ in range(70 * n)]
     cases += [gen_temps_coretemp(rng) for _ in range(40 * n)]
-    cases += [gen_fans(rng) for _ in range(120 * n)]
+    cases += [gen_fans(rng) for _ in range(100 * n)]
     cases += [gen_fans(rng, uniform=False) for _ in range(20 * n)]
     cases += [gen_fans_raw(rng) for _ in range(40 * n)]
-    cases += [gen_battery(rng) for _ in range(240 * n)]
+    cases += [gen_battery(rng) for _ in range(190 * n)]
     cases += [gen_battery_raw(rng) for _ in range(70 * n)]
-    cases += [gen_cpufreq(rng) for _ in range(150 * n)]
+    cases += [gen_cpufreq(rng) for _ in range(120 * n)]
     cases += [gen_cpufreq_raw(rng) for _ in range(40 * n)]
     cases += [gen_cpucount(rng) for _ in range(90 * n)]
     cases += [gen_cpucount_raw(rng) for _ in range(40 * n)]
